@@ -13,18 +13,21 @@ from mc.ref import lammps as RL
 
 ENGINE = 'E1 product'
 COEFFS = ['100.5 1.3', 'harmonic  12.0   3', 'fourier 1e-3 -0.5 2', '7 # C_R N_R', 'cosine/periodic 72.5 -1 1   # C_R O_1 H_', '-3.25',
-          '0.105000 3.430851 # C_R', 'class2 1.0 2.0 -3.0 4.0e+2   #  two  words', '1', 'zero']
+          '0.105000 3.430851 # C_R', 'class2 1.0 2.0 -3.0 4.0e+2   #  two  words', '1', 'zero',
+          'class2 109.4712206 44.123456 -7.654321 -12.345678 0.987654 1.234567 1.526000 1.090000 3.141593 2.718282  # C_3 C_3 H_ (fitted, set 3, do not edit by hand)']
 CELLS = [('orthorhombic', np.diag([10.0, 11, 12])), ('positive tilts', np.array([[10.0, 0, 0], [3, 11, 0], [2, 1.5, 12]])),
          ('mixed-sign tilts', np.array([[10.0, 0, 0], [-3, 11, 0], [-2, 1.5, 12]])), ('all tilts negative', np.array([[10.0, 0, 0], [-3, 11, 0], [-2, -1.5, 12]])),
          ('only yz tilted, negative', np.array([[10.0, 0, 0], [0, 11, 0], [0, -2.5, 12]])), ('tiny tilt 0.0002 (prints as 0.000200)', np.array([[15.0, 0, 0], [0, 16.0, 0], [0, 2e-4, 20.0]])), ('tilt that prints as 0.000000', np.array([[10.0, 0, 0], [1e-8, 11, 0], [0, 0, 12]])), ('no cell', None)]
 KOPT = [(0, 0), (1, 1), (2, 3), (3, 1), (3, 3), (2, 0)]          # (number of types, number of terms) per kind
 KSHAPES_Q = [(0, 0, 0, 0), (1, 1, 1, 1), (3, 3, 3, 3), (2, 2, 2, 2), (4, 4, 4, 4), (2, 1, 0, 4), (3, 0, 2, 1), (0, 3, 5, 0), (5, 5, 1, 2)]   # indices into KOPT
-ATYPES = [('two types', [0, 1, 1, 0], ['C', 'N'], [12.0107, 14.0067]), ('one type', [0, 0, 0, 0], ['C'], [12.0107]),
+EL12 = ['H', 'C', 'N', 'O', 'F', 'Si', 'P', 'S', 'Cl', 'Zn', 'Br', 'Zr']
+ATYPES = [('twelve types (two-digit type ids)', [11, 1, 9, 10], EL12, [1.00794, 12.0107, 14.0067, 15.9994, 18.9984032, 28.0855, 30.973762, 32.065, 35.453, 65.38, 79.904, 91.224]), ('two types', [0, 1, 1, 0], ['C', 'N'], [12.0107, 14.0067]), ('one type', [0, 0, 0, 0], ['C'], [12.0107]),
           ('three types, last one unused', [0, 1, 1, 0], ['C', 'N', 'O'], [12.0107, 14.0067, 15.9994]), ('non-atomic masses', [1, 0, 0, 1], ['X', 'Y'], [100.25, 3.5])]
 LABELS = [('element-like', lambda els: list(els)), ('UFF-like', lambda els: [e + '_R' for e in els]), ('with blanks', lambda els: [e + ' %d' % i for i, e in enumerate(els)])]
 CHARGES = [[0, 0, 0, 0], [-0.8234567, 12.5, 0, 1e-7], [1, -1, 0.5, -0.5]]
 COORDS = [('inside', np.array([(1, 1, 1), (2.5, 1, 1), (2.5, 2.25, 1.125), (9.5, 10, 0.5)])), ('negative', -np.array([(1, 1, 1), (2.5, 1, 1), (2.5, 2.25, 1.125), (13.5, 1, 0.5)])),
-          ('beyond the box', np.array([(11, 12, 13), (22.5, -1, 1), (2.5, 2.25, 100.125), (0, 0, 0)]))]
+          ('beyond the box', np.array([(11, 12, 13), (22.5, -1, 1), (2.5, 2.25, 100.125), (0, 0, 0)])),
+          ('large magnitudes', np.array([(1433.5, -148.0, 0.25), (-1000.000001, 99999.5, 1.0), (2.5, 2.25, -100.125), (12345.678901, 0, 0)]))]
 STYLES = ['full', 'atomic']
 TUPS = {'bond': [(0, 1), (1, 2), (3, 2)], 'angle': [(0, 1, 2), (1, 2, 3), (3, 0, 1)], 'dihedral': [(0, 1, 2, 3), (3, 2, 1, 0), (1, 0, 3, 2)], 'improper': [(1, 0, 2, 3), (2, 1, 3, 0), (0, 3, 1, 2)]}
 
@@ -37,10 +40,10 @@ def plan(tier, seed):
             for tables in (1, 0):
                 for co in range(len(COEFFS)):
                     for ch in (range(2) if q else range(3)):
-                        for xy in (range(2) if q else range(3)):
+                        for xy in ((0, 1, 3) if q else range(4)):
                             for lab in (range(2) if q else range(3)):
                                 for st in range(2):
-                                    at = (co + ch + xy) % len(ATYPES) if q else None
+                                    at = (co + ch + xy + lab) % len(ATYPES) if q else None
                                     for a in ([at] if q else range(len(ATYPES))):
                                         scs.append(dict(cell=ci, ks=list(ks), tables=tables, co=co, ch=ch, xy=xy, lab=lab, at=a, st=st))
     if not q:
@@ -211,6 +214,21 @@ def run(sc, ctx):
         if err or err2 or open(p).read() != T1 or s.getvalue() != T1:
             bad('routes', 'save-route', 'Atoms.save(path) / Atoms.save(file, "lmpdat") do not write the same text as save_lmpdat: %r' % ((err or err2 or ('', ''))[0],))
         else:
+            # labels / comments with non-ASCII characters through path I/O
+            u = a.copy(); u.atom_type_labels = [str(x) + '\u03bc' for x in u.atom_type_labels]
+            if len(u.bond_type_coeffs):
+                u.bond_type_coeffs = np.array([str(x) + ('' if '#' in str(x) else ' #') + ' \u03b5 \u00c5' for x in u.bond_type_coeffs])
+            pu = os.path.join(d, 'u%d.lmpdat' % os.getpid())
+            try:
+                '\u03bc\u00c5'.encode(__import__('locale').getpreferredencoding(False))
+                enc_ok = True
+            except Exception:
+                enc_ok = False
+            if enc_ok:
+                ru, eu = call(u.save, pu, atom_format=style)
+                lu, eu2 = call(Atoms.load, pu, atom_format=style) if not eu else (None, eu)
+                if eu2 or [str(x).split() for x in lu.atom_type_labels] != [str(x).split() for x in u.atom_type_labels] or [RL.coeff_tokens(x) for x in lu.bond_type_coeffs] != [RL.coeff_tokens(x) for x in u.bond_type_coeffs]:
+                    bad('routes', 'non-ascii', 'labels / comments with non-ASCII characters do not survive Atoms.save(path) + Atoms.load(path): %r' % ((eu2 or ('', ''))[0] or [str(x) for x in lu.atom_type_labels],))
             p2 = os.path.join(d, 'f%d.data.txt' % os.getpid())
             r3, e3 = call(a.save, p2, 'lmpdat', atom_format=style)
             l3, e3b = call(Atoms.load, p2, 'lmpdat', atom_format=style) if not e3 else (None, e3)
